@@ -9,6 +9,7 @@ CONE = [
     'csep.core.catalogs.AbstractBaseCatalog.spatial_event_probability',
     'csep.core.catalogs.AbstractBaseCatalog.magnitude_counts',
     'csep.core.catalogs.AbstractBaseCatalog.spatial_magnitude_counts',
+    'csep.core.catalogs.AbstractBaseCatalog.get_mag_idx', 'csep.core.catalogs.AbstractBaseCatalog.get_spatial_idx',
     'csep.core.regions.QuadtreeGrid2D.get_index_of',
 ]
 ORACLE_MODULES = ['rt.oracles_grid']
